@@ -97,10 +97,12 @@ type written struct {
 	items     []item
 	title     string
 	metaTitle string
-	meta      *pdf.MetadataStream
-	nStrings  int
-	nStreams  int
-	writerErr error
+	// argsModified describes a value of the caller that the Writer changed
+	argsModified string
+	meta         *pdf.MetadataStream
+	nStrings     int
+	nStreams     int
+	writerErr    error
 }
 
 var stringLens = []int{0, 1, 2, 15, 16, 17, 31, 32, 33, 47, 48, 64, 100}
@@ -280,6 +282,64 @@ func writeDoc(spec docSpec) (w *written, err error) {
 			return w, err
 		}
 	}
+	// one pdf.String value and one array holding strings, shared by several
+	// objects: written by Put (twice in one object, under two references), in
+	// a stream dictionary and by WriteCompressed.  Every occurrence must read
+	// back as the plaintext and the caller's values must not change.
+	var sharedCheck func()
+	{
+		var plain obj.Str
+		for len(plain) < 6 {
+			plain = randString(rnd)
+		}
+		shStr := pdf.String(append([]byte(nil), plain...))
+		shArrWant := obj.Array{randString(rnd), obj.Dict{"K": randString(rnd)}, obj.Int(3)}
+		shArr := shared.ToPDF(shArrWant).(pdf.Array)
+		r1, r2, r3, r4, m1, m2 := out.Alloc(), out.Alloc(), out.Alloc(), out.Alloc(), out.Alloc(), out.Alloc()
+		add := func(where string, ref pdf.Reference, want obj.Value, direct bool) {
+			w.items = append(w.items, item{where: where, ref: ref, want: want, direct: direct})
+			w.nStrings += countStrings(want)
+		}
+		add("shared-array", r1, obj.Array{plain, shArrWant, plain}, true)
+		if err = out.Put(r1, pdf.Array{shStr, shArr, shStr}); err != nil {
+			return w, err
+		}
+		add("shared-dict", r2, obj.Dict{"S": plain, "A": shArrWant, "Sub": obj.Dict{"S": plain}}, true)
+		if err = out.Put(r2, pdf.Dict{"S": shStr, "A": shArr, "Sub": pdf.Dict{"S": shStr}}); err != nil {
+			return w, err
+		}
+		add("shared-string", r3, plain, true)
+		if err = out.Put(r3, shStr); err != nil {
+			return w, err
+		}
+		sd := obj.Dict{"Desc": plain, "Arr": shArrWant}
+		sbody := body(40)
+		w.items = append(w.items, item{where: "shared-stream-dict", ref: r4, isStream: true, dict: sd, body: sbody, direct: true})
+		w.nStrings += countStrings(sd)
+		w.nStreams++
+		st, err := out.OpenStream(r4, pdf.Dict{"Desc": shStr, "Arr": shArr})
+		if err != nil {
+			return w, err
+		}
+		if _, err = st.Write(sbody); err != nil {
+			return w, err
+		}
+		if err = st.Close(); err != nil {
+			return w, err
+		}
+		add("shared-compressed", m1, obj.Dict{"S": plain, "A": shArrWant}, spec.Version < 15)
+		add("shared-compressed", m2, shArrWant, spec.Version < 15)
+		if err = out.WriteCompressed([]pdf.Reference{m1, m2}, pdf.Dict{"S": shStr, "A": shArr}, shArr); err != nil {
+			return w, err
+		}
+		sharedCheck = func() {
+			if !bytes.Equal(shStr, plain) {
+				w.argsModified = fmt.Sprintf("the caller's pdf.String changed from %q to %q", clip(string(plain)), clip(string(shStr)))
+			} else if !obj.Equal(shared.FromPDF(shArr), shArrWant) {
+				w.argsModified = "the strings inside the caller's pdf.Array changed"
+			}
+		}
+	}
 	// compressed objects
 	c1, c2, c3 := out.Alloc(), out.Alloc(), out.Alloc()
 	cv := []obj.Value{
@@ -317,6 +377,7 @@ func writeDoc(spec docSpec) (w *written, err error) {
 	if err = out.Close(); err != nil {
 		return w, err
 	}
+	sharedCheck()
 	w.file = buf.Bytes()
 	return w, nil
 }
@@ -370,6 +431,9 @@ func readDoc(w *written, password string) (res readResult) {
 }
 
 func checkContent(w *written, r *pdf.Reader) (bool, string) {
+	if w.argsModified != "" {
+		return false, "writing modified a value of the caller: " + w.argsModified
+	}
 	for _, it := range w.items {
 		got, err := r.Get(it.ref, true)
 		if err != nil {
